@@ -1089,14 +1089,17 @@ type stanzaEncoder struct {
 }
 
 func (se *stanzaEncoder) EncodeToken(t xml.Token) error {
+	// The depth only changes if the token is written: a token that is rejected
+	// (for instance a start element without a name) is not part of the stream.
+	depth := se.depth
 	switch tok := t.(type) {
 	case xml.StartElement:
-		se.depth++
+		depth++
 		// The attributes are filtered and extended below: work on a copy, the
 		// slice belongs to the caller.
 		tok.Attr = append(make([]xml.Attr, 0, len(tok.Attr)+2), tok.Attr...)
 		// Add required attributes if missing:
-		if se.depth == 1 && isStanzaEmptySpace(tok.Name) {
+		if depth == 1 && isStanzaEmptySpace(tok.Name) {
 			if tok.Name.Space == "" {
 				tok.Name.Space = se.ns
 			}
@@ -1153,14 +1156,18 @@ func (se *stanzaEncoder) EncodeToken(t xml.Token) error {
 		tok.Attr = attrs
 		t = tok
 	case xml.EndElement:
-		if se.depth == 1 && tok.Name.Space == "" && isStanzaEmptySpace(tok.Name) {
+		if depth == 1 && tok.Name.Space == "" && isStanzaEmptySpace(tok.Name) {
 			tok.Name.Space = se.ns
 			t = tok
 		}
-		se.depth--
+		depth--
 	}
 
-	return se.TokenWriteFlusher.EncodeToken(t)
+	err := se.TokenWriteFlusher.EncodeToken(t)
+	if err == nil {
+		se.depth = depth
+	}
+	return err
 }
 
 // UpdateAddr sets the address used by the session.
